@@ -76,10 +76,12 @@ fn scalar(rng: &mut Rng) -> V {
     }
 }
 
-/// keys: container-free, never an integral float (generation filter for F-C14-1: a float key that
-/// is `==` to an integer key hashes differently)
+/// keys: container-free; integral floats (`1.0`, `-0.0` …) are included again since F-C14-1 is fixed
+/// (they must address the entries of the equal integers)
 fn key(rng: &mut Rng) -> V {
-    match rng.below(14) {
+    match rng.below(16) {
+        14 => fbits(*rng.pick(&[0.0, -0.0, 1.0, 2.0, 3.0, 4.0])),
+        15 => V::T(vec![fbits(*rng.pick(&[0.0, 1.0, 2.0])), vs(*rng.pick(&["a", "b"]))]),
         0..=4 => vs(*rng.pick(&["a", "b", "c", "d", "e", "f"])),
         5..=8 => V::I(rng.range(0, 5)),
         9 => fbits(*rng.pick(&[0.5, 2.5, -1.5])),
@@ -412,18 +414,10 @@ impl<'a> Gen<'a> {
                 }
             }
             19..=22 => {
-                // index assignment: a new key, or the key already at that index (generation filter
-                // for F-C14-2 / F-C06-4: a key present at *another* index panics)
+                // index assignment: a new key, the key already at that index, or (since F-C14-2 is
+                // fixed: a runtime error) a key in use at another index
                 let i = self.index(len);
                 let k = self.map_key(es);
-                if let V::I(ix) = &i {
-                    let clash = es.iter().enumerate().any(|(j, (kk, _))| key_eq(kk, &k) && j as i64 != *ix);
-                    if clash && *ix >= 0 && (*ix as usize) < len {
-                        return None;
-                    }
-                } else if es.iter().any(|(kk, _)| key_eq(kk, &k)) {
-                    return None;
-                }
                 Stmt::Do(op("iset", vec![t, imm(i), E::Tup(vec![imm(k), stored(self)])]))
             }
             23..=24 => {
